@@ -651,11 +651,27 @@ static int _parse_inline(qaconf_t *qaconf, FILE *fp, uint8_t flags,
             break;
         }
 
+        // fgets() stops when the buffer is full. The rest of a longer line
+        // must not be taken for the next line: read up to its end.
+        bool toolong = false;
+        size_t buflen = strlen(buf);
+        if (buflen == MAX_LINESIZE - 1 && buf[buflen - 1] != '\n') {
+            int c;
+            while ((c = fgetc(fp)) != EOF && c != '\n') {
+                toolong = true;
+            }
+        }
+
         // Increase line number counter
         qaconf->lineno++;
 
         // Trim white spaces
         qstrtrim(buf);
+
+        // A comment can have any length, other lines must fit into the buffer.
+        if (toolong == true && *buf != '#') {
+            EXITLOOP("Line is too long.");
+        }
 
         // Skip blank like and comments.
         if (IS_EMPTY_STR(buf) || *buf == '#') {
